@@ -130,7 +130,7 @@ var embedCatalog = []struct {
 
 func keyFor(l leafSpec, source string) string {
 	switch source {
-	case "env":
+	case "env", "manglers": // the manglers test holds the string caster, the same parse.String path
 		return l.envKey
 	case "flag":
 		return l.flagKey
